@@ -15,9 +15,18 @@ def seeded():
         for i, r in enumerate(m.get("check_results", [])):
             rows.append("| %s | %s | %s | %s | `%s`: %s | %s | %s |" % (
                 name if i == 0 else "", m.get("property", "") if i == 0 else "", needs if i == 0 else "",
-                ("missed" if "MISSED" in m.get("first_run", "") else "no replay" if m.get("first_run") else "caught") if i == 0 else "",
+                _first(m) if i == 0 else "",
                 r["cmd"].replace("|", "/"), r["outcome"].replace("|", "/"), r["caught_by"].replace("|", "/"), r["replay"].replace("|", "/")))
     return "\n".join(rows)
+
+def _first(m):
+    f = m.get("first_run", "")
+    if not f:
+        return "caught"
+    if m.get("round") == 3:
+        return f.replace("|", "/")[:90]
+    return "missed" if "MISSED" in f else "no replay"
+
 
 def findings():
     k = json.load(open(os.path.join(V, "known_findings.json")))["findings"]
